@@ -52,10 +52,23 @@ class Gen:
             ch += ["arglen", "argget", "argget", "argset"]
         if d > 0:
             ch += ["fn", "fn", "call", "call", "call", "add", "lt", "seq", "logassign", "incdec", "and", "or", "nullish", "cond", "sub",
-                   "objlit", "objlit", "mget", "mget", "passign"]
+                   "objlit", "objlit", "mget", "mget", "passign", "mset", "mset", "maddassign", "mincdec", "mcall", "mcall"]
+            if fs.get("thisok"):
+                ch += ["this", "this"]
         c = r.choice(ch)
         if c == "objlit":
             return self.objlit(d - 1, fs)
+        if c == "this":
+            return N("this")
+        if c in ("mset", "maddassign", "mincdec", "mcall"):
+            q = r.random()
+            base = self.objlit(d - 1, fs) if q < 0.25 else N("this") if (q < 0.5 and fs.get("thisok")) else N("ref", x=self.anyname(fs))
+            key = r.choice(["a", "b"])
+            if c == "mincdec":
+                return N("mincdec", x=key, n=r.choice([1, -1]), op=r.choice(["pre", "post"]), k=[base])
+            if c == "mcall":
+                return N("mcall", x=key, k=[base] + [self.expr(d - 1, fs) for _ in range(r.randint(0, 2))])
+            return N(c, x=key, k=[base, self.expr(d - 1, fs)])
         if c == "mget":
             base = self.objlit(d - 1, fs) if r.random() < 0.4 else N("ref", x=self.anyname(fs))
             return N("mget", x=r.choice(["a", "b"]), k=[base])
@@ -111,13 +124,23 @@ class Gen:
     def objlit(self, d, fs):
         r = self.r
         props = []
-        for key in r.sample(["a", "b"], r.randint(1, 2)):
-            if r.random() < 0.3:
-                g = N("fn", x="", kind="func", p=[], d=[], pp=[], s=0,
-                      k=[N("return", k=[N("log", k=[self.expr(max(d, 0), fs)])])] if r.random() < 0.7 else self.stmts(max(d, 0), dict(
-                          declared=set(), params=[], loopvars=set(), incatch=False, top=True, outer=fs["declared"] | fs.get("outer", set()),
-                          argsok=True, revar=set(), inited=list(fs.get("inited") or []), fnames=list(fs.get("fnames") or [])), top=True, maxn=2))
-                props.append(N("prop", x=key, kind="get", k=[g]))
+        keys = r.sample(["a", "b"], r.randint(1, 2))
+        if r.random() < 0.3:
+            keys.append(r.choice(keys))        # a second definition of one key: getter + setter pairs, replaced data properties
+        for key in keys:
+            q = r.random()
+            if q < 0.5:
+                params = ["p"] if q < 0.2 else []
+                ifs = dict(declared=set(params), params=params, loopvars=set(), incatch=False, top=True, outer=fs["declared"] | fs.get("outer", set()),
+                           argsok=True, thisok=True, revar=set(params), inited=list(fs.get("inited") or []) + params, fnames=list(fs.get("fnames") or []))
+                if r.random() < 0.7:
+                    body = [N("return", k=[N("log", k=[self.expr(max(d, 0), dict(fs, thisok=True, argsok=True))])])]
+                else:
+                    body = self.stmts(max(d, 0), ifs, top=True, maxn=2)
+                g = N("fn", x="", kind="func", p=params, d=[N("none") for _ in params], pp=[N("none") for _ in params], s=0, k=body)
+                props.append(N("prop", x=key, kind="set" if params else "get", k=[g]))
+            elif q < 0.65:
+                props.append(N("prop", x=key, kind="data", k=[self.fn(max(d, 1) - 1, fs)]))     # a method
             else:
                 props.append(N("prop", x=key, kind="data", k=[self.expr(d, fs)]))
         return N("objlit", k=props)
@@ -140,6 +163,7 @@ class Gen:
         inner = dict(declared=set(params), params=params, loopvars=set(), incatch=False, top=True, outer=fs["declared"] | fs.get("outer", set()),
                      argsok=(kind != "arrow") or fs.get("argsok", False), revar=set(params),
                      inited=list(fs.get("inited") or []) + list(params), fnames=list(fs.get("fnames") or []))
+        inner["thisok"] = True if kind != "arrow" else bool(fs.get("thisok"))
         if kind == "named":
             # the function's own name: an immutable binding in the scope around the parameters, assignments to it are
             # ignored in sloppy code and a TypeError in strict code (wherever the assigning code is nested)
@@ -328,7 +352,10 @@ class Gen:
             k = [self.block(d - 1, fs), self.block(d - 1, fs2)]
             if r.random() < 0.4:
                 k.append(self.block(d - 1, fs))
-            return N("try", x="e", k=k)
+            cp = N("none")
+            if r.random() < 0.2:       # catch ({a: e = default}): the parameter is a binding pattern
+                cp = N("opat", k=[N("pel", x="e", key=r.choice(["a", "b"]), n=1, k=[self.expr(max(d - 1, 0), fs)] if r.random() < 0.5 else [])])
+            return N("try", x="e", cp=cp, k=k)
         if c == "return":
             return N("return", k=[self.expr(d - 1, fs)])
         return N("throw", k=[self.expr(d - 1, fs)])
@@ -348,7 +375,7 @@ def guard(stmt):
     """try { stmt } catch (e) { LOG(e) }: an exception does not end the program (declarations are not wrapped: they would become block-scoped)"""
     if stmt["t"] in ("var", "let", "const", "fdecl", "return", "varp", "letp", "constp"):
         return stmt
-    return N("try", x="e", k=[N("block", k=[stmt]), N("block", k=[N("expr", k=[N("log", k=[N("ref", x="e")])])])])
+    return N("try", x="e", cp=N("none"), k=[N("block", k=[stmt]), N("block", k=[N("expr", k=[N("log", k=[N("ref", x="e")])])])])
 
 
 def random_program(pid, rnd, maxd=3):
@@ -360,7 +387,7 @@ def random_program(pid, rnd, maxd=3):
     # make the closures observable: call what may hold one at the end
     for nm in FUNS + ["y"]:
         if rnd.random() < 0.6:
-            body.append(N("try", x="e", k=[N("block", k=[N("expr", k=[N("log", k=[N("call", k=[N("ref", x=nm)])])])]),
+            body.append(N("try", x="e", cp=N("none"), k=[N("block", k=[N("expr", k=[N("log", k=[N("call", k=[N("ref", x=nm)])])])]),
                                          N("block", k=[N("expr", k=[N("log", k=[N("ref", x="e")])])])]))
     return dict(id=pid, strict=1 if rnd.random() < 0.4 else 0, body=body)
 
@@ -412,10 +439,23 @@ def pe(e, o):
         return "(%s, %s)" % (pe(e["k"][0], o), pe(e["k"][1], o))
     if t == "call":
         return "(%s)(%s)" % (pe(e["k"][0], o), ", ".join(pe(a, o) for a in e["k"][1:]))
+    if t == "this":
+        return "this"
+    if t == "mset":
+        return "((%s).%s = %s)" % (pe(e["k"][0], o), e["x"], pe(e["k"][1], o))
+    if t == "maddassign":
+        return "((%s).%s += %s)" % (pe(e["k"][0], o), e["x"], pe(e["k"][1], o))
+    if t == "mincdec":
+        sym = "++" if e["n"] == 1 else "--"
+        return "(%s(%s).%s)" % (sym, pe(e["k"][0], o), e["x"]) if e["op"] == "pre" else "((%s).%s%s)" % (pe(e["k"][0], o), e["x"], sym)
+    if t == "mcall":
+        return "(%s).%s(%s)" % (pe(e["k"][0], o), e["x"], ", ".join(pe(a, o) for a in e["k"][1:]))
     if t == "objlit":
         parts = []
         for pr in e["k"]:
-            if pr["kind"] == "get":
+            if pr["kind"] == "set":
+                parts.append("set %s(%s) {%s}" % (pr["x"], params(pr["k"][0], o), fbody(pr["k"][0], o, 0)))
+            elif pr["kind"] == "get":
                 parts.append("get %s() {%s}" % (pr["x"], fbody(pr["k"][0], o, 0)))
             else:
                 parts.append("%s: %s" % (pr["x"], pe(pr["k"][0], o)))
@@ -526,7 +566,8 @@ def ps(stmts, o, ind):
             if o.get("deadcode"):
                 out.append(p + "LOG(987655);")
         elif t == "try":
-            r = p + "try {\n%s\n%s} catch (%s) {\n%s\n%s}" % (ps(s["k"][0]["k"], o, ind + 1), p, s["x"], ps(s["k"][1]["k"], o, ind + 1), p)
+            cpar = s["x"] if s.get("cp", {"t": "none"})["t"] == "none" else ppat(s["cp"], o)
+            r = p + "try {\n%s\n%s} catch (%s) {\n%s\n%s}" % (ps(s["k"][0]["k"], o, ind + 1), p, cpar, ps(s["k"][1]["k"], o, ind + 1), p)
             if len(s["k"]) > 2:
                 r += " finally {\n%s\n%s}" % (ps(s["k"][2]["k"], o, ind + 1), p)
             out.append(r)
